@@ -866,7 +866,10 @@ class Problem:
             )
         else:
             include_point = all(
-                fun_val < fun_filter or maxcv_val < maxcv_filter
+                fun_val < fun_filter
+                or maxcv_val < maxcv_filter
+                or np.isnan(fun_filter)
+                or np.isnan(maxcv_filter)
                 for fun_filter, maxcv_filter in zip(
                     self._fun_filter,
                     self._maxcv_filter,
